@@ -6,6 +6,9 @@
   (known finding F7c); the transfer theorems carry the hypothesis that the label is not one of them.
 -/
 import Robotools.Props.C04
+import Robotools.Proofs.HistLemmas
+import Robotools.Props.C06
+import Robotools.Props.C18
 namespace Robotools.C11
 open Robotools
 
@@ -31,21 +34,269 @@ def isCondense : Micro → Bool
 def logsOn (l : Nat) (ms : List Micro) : Nat :=
   (ms.filter fun m => match m with | .log l' _ => l' = l | _ => false).length
 
+/-! ### Helper lemmas (micro level) -/
+
+private theorem whist_setLab (w : World) (l0 l : Nat) (L L' : Labware) (hL : w.labs[l0]? = some L) :
+    whist (w.setLab l0 L') l = if l0 = l then L'.hist else whist w l := by
+  have hlt : l0 < w.labs.length := (List.getElem?_eq_some_iff.1 hL).1
+  unfold whist World.setLab
+  simp only [List.getElem?_set]
+  by_cases heq : l0 = l
+  · subst heq
+    simp only [if_pos hlt, if_true]
+  · simp only [if_neg heq]
+
+private theorem wvols_setLab (w : World) (l0 l : Nat) (L L' : Labware) (hL : w.labs[l0]? = some L) :
+    wvols (w.setLab l0 L') l = if l0 = l then L'.vols else wvols w l := by
+  have hlt : l0 < w.labs.length := (List.getElem?_eq_some_iff.1 hL).1
+  unfold wvols World.setLab
+  simp only [List.getElem?_set]
+  by_cases heq : l0 = l
+  · subst heq
+    simp only [if_pos hlt, if_true]
+  · simp only [if_neg heq]
+
+private theorem whist_of_some {w : World} {l : Nat} {L : Labware} (h : w.labs[l]? = some L) :
+    whist w l = L.hist := by unfold whist; rw [h]
+
+private theorem wvols_of_some {w : World} {l : Nat} {L : Labware} (h : w.labs[l]? = some L) :
+    wvols w l = L.vols := by unfold wvols; rw [h]
+
+private theorem whist_of_labs {w w' : World} (h : w'.labs = w.labs) (l : Nat) :
+    whist w' l = whist w l := by unfold whist; rw [h]
+
+private theorem wvols_of_labs {w w' : World} (h : w'.labs = w.labs) (l : Nat) :
+    wvols w' l = wvols w l := by unfold wvols; rw [h]
+
+/-- The history never changes under `rm`/`ad`; the volumes of other labware neither. -/
+private theorem micro_rm (w w' : World) (l0 i : Nat) (v : Rat) (l : Nat)
+    (h : w.micro (.rm l0 i v) = .ok w') :
+    whist w' l = whist w l ∧ (l0 ≠ l → wvols w' l = wvols w l) := by
+  simp only [World.micro] at h
+  split at h
+  · cases h
+  · rename_i L hL
+    split at h
+    · rename_i L' hL'
+      cases h
+      have hf := Labware.removeStep_fields hL'
+      rw [whist_setLab w l0 l L L' hL, wvols_setLab w l0 l L L' hL]
+      refine ⟨?_, fun hne => by rw [if_neg hne]⟩
+      split
+      · rename_i heq; subst heq; rw [whist_of_some hL]; exact hf.2.2.2.2.2.2.1
+      · rfl
+    · cases h
+
+private theorem micro_ad (w w' : World) (l0 i : Nat) (v : Rat) (c : CompSrc) (l : Nat)
+    (h : w.micro (.ad l0 i v c) = .ok w') :
+    whist w' l = whist w l ∧ (l0 ≠ l → wvols w' l = wvols w l) := by
+  simp only [World.micro] at h
+  split at h
+  · cases h
+  · rename_i L hL
+    split at h
+    · rename_i L' hL'
+      cases h
+      have hf := Labware.addStep_fields hL'
+      rw [whist_setLab w l0 l L L' hL, wvols_setLab w l0 l L L' hL]
+      refine ⟨?_, fun hne => by rw [if_neg hne]⟩
+      split
+      · rename_i heq; subst heq; rw [whist_of_some hL]; exact hf.2.2.2.2.2.2
+      · rfl
+    · cases h
+
+private theorem micro_quiet_labs (w w' : World) (m : Micro) (hq : quiet m = true)
+    (h : w.micro m = .ok w') : w'.labs = w.labs := by
+  cases m with
+  | loadComp l0 i0 =>
+    simp only [World.micro] at h
+    split at h
+    · cases h
+    · cases h; rfl
+  | emit r => simp only [World.micro] at h; cases h; rfl
+  | setDiti k =>
+    simp only [World.micro] at h
+    split at h <;> split at h <;> first | (cases h; rfl) | cases h
+  | fail e => simp only [World.micro] at h; cases h
+  | _ => cases hq
+
+private theorem micro_condense (w w' : World) (l0 n : Nat) (label : Option String) (l : Nat)
+    (h : w.micro (.condense l0 n label) = .ok w') :
+    wvols w' l = wvols w l ∧ (l0 ≠ l → whist w' l = whist w l)
+    ∧ (l0 = l → ∃ L L' : Labware, L.condenseLog n label = .ok L' ∧ whist w l = L.hist ∧ whist w' l = L'.hist) := by
+  simp only [World.micro] at h
+  split at h
+  · cases h
+  · rename_i L hL
+    split at h
+    · rename_i L' hL'
+      cases h
+      rw [whist_setLab w l0 l L L' hL, wvols_setLab w l0 l L L' hL]
+      refine ⟨?_, fun hne => by rw [if_neg hne], fun heq => ?_⟩
+      · split
+        · rename_i heq; subst heq; rw [wvols_of_some hL]; exact (Labware.condenseLog_fields hL').1
+        · rfl
+      · subst heq
+        exact ⟨L, L', hL', whist_of_some hL, if_pos rfl⟩
+    · cases h
+
 /-! ### Micro level: only `log` and `condense` touch the history; snapshots are values -/
 
 theorem micro_hist_other (w w' : World) (m : Micro) (l : Nat) (h : w.micro m = .ok w')
     (hm : ∀ l' x, m ≠ .log l' x) (hc : isCondense m = false) : whist w' l = whist w l := by
-  sorry
+  cases m with
+  | rm l0 i v => exact (micro_rm w w' l0 i v l h).1
+  | ad l0 i v c => exact (micro_ad w w' l0 i v c l h).1
+  | log l0 x => exact absurd rfl (hm l0 x)
+  | condense l0 n x => cases hc
+  | loadComp l0 i => exact whist_of_labs (micro_quiet_labs w w' _ rfl h) l
+  | emit r => exact whist_of_labs (micro_quiet_labs w w' _ rfl h) l
+  | setDiti k => exact whist_of_labs (micro_quiet_labs w w' _ rfl h) l
+  | fail e => exact whist_of_labs (micro_quiet_labs w w' _ rfl h) l
 
 theorem micro_hist_log (w w' : World) (l l' : Nat) (label : Option String) (h : w.micro (.log l' label) = .ok w') :
     whist w' l = (if l' = l then whist w l ++ [(label, wvols w l)] else whist w l) ∧ wvols w' l = wvols w l := by
-  sorry
+  simp only [World.micro] at h
+  split at h
+  · cases h
+  · rename_i L hL
+    cases h
+    rw [whist_setLab w l' l L _ hL, wvols_setLab w l' l L _ hL]
+    by_cases heq : l' = l
+    · subst heq
+      simp only [if_true]
+      rw [whist_of_some hL, wvols_of_some hL]
+      exact ⟨rfl, rfl⟩
+    · simp only [if_neg heq]
+      exact ⟨trivial, trivial⟩
+
+/-! ### Helper lemmas (lists of micro-operations) -/
+
+private theorem logsOn_append (l : Nat) (a b : List Micro) :
+    logsOn l (a ++ b) = logsOn l a + logsOn l b := by
+  simp only [logsOn, List.filter_append, List.length_append]
+
+private theorem logsOn_cons (l : Nat) (m : Micro) (ms : List Micro) :
+    logsOn l (m :: ms) = logsOn l [m] + logsOn l ms := logsOn_append l [m] ms
+
+private theorem micro_hist_grow (w w' : World) (m : Micro) (l : Nat) (h : w.micro m = .ok w')
+    (hc : isCondense m = false) :
+    ∃ e0, whist w' l = whist w l ++ e0 ∧ e0.length = logsOn l [m] := by
+  by_cases hlog : ∃ l' x, m = .log l' x
+  · obtain ⟨l', x, rfl⟩ := hlog
+    have := (micro_hist_log w w' l l' x h).1
+    by_cases heq : l' = l
+    · rw [if_pos heq] at this
+      exact ⟨_, this, by simp [logsOn, heq]⟩
+    · rw [if_neg heq] at this
+      exact ⟨[], by rw [this, List.append_nil], by simp [logsOn, heq]⟩
+  · have := micro_hist_other w w' m l h (fun l' x e => hlog ⟨l', x, e⟩) hc
+    refine ⟨[], by rw [this, List.append_nil], ?_⟩
+    cases m <;> first | rfl | exact absurd ⟨_, _, rfl⟩ hlog
+
+private theorem exec_append_ok {w w' : World} {a b : List Micro}
+    (h : w.exec (a ++ b) = (w', none)) :
+    ∃ w1, w.exec a = (w1, none) ∧ w1.exec b = (w', none) := by
+  rw [World.exec_append] at h
+  rcases hx : w.exec a with ⟨w1, _ | e⟩
+  · rw [hx] at h; exact ⟨w1, rfl, h⟩
+  · rw [hx] at h; cases h
+
+private theorem exec_singleton_ok {w w' : World} {m : Micro} (h : w.exec [m] = (w', none)) :
+    w.micro m = .ok w' := by
+  cases hm : w.micro m with
+  | ok w1 => rw [World.exec_cons_ok _ hm] at h; cases h; rfl
+  | error e => rw [World.exec_cons_error _ hm] at h; cases h
+
+private theorem exec_noFail {w w' : World} {ms : List Micro} (h : w.exec ms = (w', none)) :
+    ∀ m ∈ ms, isFail m = false := by
+  induction ms generalizing w with
+  | nil => intro m hm; cases hm
+  | cons m0 ms ih =>
+    cases hm : w.micro m0 with
+    | ok w1 =>
+      rw [World.exec_cons_ok _ hm] at h
+      intro m hmem
+      rcases List.mem_cons.1 hmem with rfl | hmem
+      · cases m <;> first | rfl | (simp only [World.micro] at hm; cases hm)
+      · exact ih h m hmem
+    | error e => rw [World.exec_cons_error _ hm] at h; cases h
+
+private theorem exec_fail_not_ok (w w' : World) (e : Err) : w.exec [.fail e] ≠ (w', none) := by
+  intro h
+  have := exec_noFail h (.fail e) List.mem_cons_self
+  cases this
+
+/-- Record-only micro-operations keep the labware, also when execution stops early. -/
+private theorem exec_quiet_labs (w : World) (Q : List Micro) (hQ : ∀ m ∈ Q, quiet m = true) :
+    (w.exec Q).1.labs = w.labs :=
+  World.exec_invariant (P := fun w' => w'.labs = w.labs) (Q := fun m => quiet m = true)
+    (fun w1 w2 m hq hP hm => by rw [micro_quiet_labs w1 w2 m hq hm]; exact hP) w Q hQ rfl
+
+private theorem stepOn_not_log {l : Nat} {m : Micro} (h : stepOn l m = true) :
+    (∀ l' x, m ≠ .log l' x) ∧ isCondense m = false := by
+  cases m with
+  | rm _ _ _ => exact ⟨fun _ _ e => Micro.noConfusion e, rfl⟩
+  | ad _ _ _ _ => exact ⟨fun _ _ e => Micro.noConfusion e, rfl⟩
+  | fail _ => exact ⟨fun _ _ e => Micro.noConfusion e, rfl⟩
+  | _ => cases h
+
+private theorem exec_steps_hist (w : World) (l : Nat) (steps : List Micro)
+    (hs : ∀ m ∈ steps, stepOn l m = true) (l' : Nat) :
+    whist (w.exec steps).1 l' = whist w l' :=
+  World.exec_invariant (P := fun w' => whist w' l' = whist w l') (Q := fun m => stepOn l m = true)
+    (fun w1 w2 m hq hP hm => by
+      rw [micro_hist_other w1 w2 m l' hm (stepOn_not_log hq).1 (stepOn_not_log hq).2]; exact hP)
+    w steps hs rfl
+
+/-- One call = steps on `l`, one `log l label`, record emission: exactly one new entry on `l`,
+    carrying the final volumes. -/
+private theorem one_entry (w w' : World) (l : Nat) (label : Option String) (A Q : List Micro)
+    (hA : OneLog l label A) (hQ : ∀ m ∈ Q, quiet m = true) (h : w.exec (A ++ Q) = (w', none)) :
+    whist w' l = whist w l ++ [(label, wvols w' l)] ∧ ∀ l', l' ≠ l → whist w' l' = whist w l' := by
+  obtain ⟨w2, hA2, hQ2⟩ := exec_append_ok h
+  rcases hA with rfl | ⟨steps, hs, rfl⟩
+  · exact absurd hA2 (exec_fail_not_ok _ _ _)
+  · obtain ⟨w1, h1, hlog⟩ := exec_append_ok hA2
+    have hlog := exec_singleton_ok hlog
+    have hlabs : w'.labs = w2.labs := by
+      have := exec_quiet_labs w2 Q hQ
+      rw [hQ2] at this; exact this
+    have hw1 : ∀ l', whist w1 l' = whist w l' := fun l' => by
+      have := exec_steps_hist w l steps hs l'
+      rw [h1] at this; exact this
+    have hl := micro_hist_log w1 w2 l l label hlog
+    rw [if_pos rfl] at hl
+    refine ⟨?_, fun l' hne => ?_⟩
+    · rw [whist_of_labs hlabs, wvols_of_labs hlabs, hl.1, hl.2, hw1]
+    · have := (micro_hist_log w1 w2 l' l label hlog).1
+      rw [if_neg (fun e => hne e.symm)] at this
+      rw [whist_of_labs hlabs, this, hw1]
+
+private theorem exec_reject_not_ok (w w' : World) : w.exec [.fail .reject] ≠ (w', none) :=
+  exec_fail_not_ok w w' _
 
 /-- Without condensation the history only grows: earlier entries are never altered or dropped, and
     it grows by exactly one entry per `log`. -/
 theorem exec_hist_append (w : World) (ms : List Micro) (l : Nat) (hc : ∀ m ∈ ms, isCondense m = false) :
     ∃ ext, whist (w.exec ms).1 l = whist w l ++ ext ∧ ext.length = logsOn l (C04.executed w ms) := by
-  sorry
+  induction ms generalizing w with
+  | nil => exact ⟨[], by simp only [World.exec_nil, List.append_nil], rfl⟩
+  | cons m ms ih =>
+    cases hm : w.micro m with
+    | ok w1 =>
+      obtain ⟨e0, he0, hl0⟩ := micro_hist_grow w w1 m l hm (hc m List.mem_cons_self)
+      obtain ⟨e1, he1, hl1⟩ := ih w1 (fun m' h' => hc m' (List.mem_cons_of_mem _ h'))
+      refine ⟨e0 ++ e1, ?_, ?_⟩
+      · rw [World.exec_cons_ok _ hm, he1, he0, List.append_assoc]
+      · have hex : C04.executed w (m :: ms) = m :: C04.executed w1 ms := by
+          simp only [C04.executed, hm]
+        rw [hex, logsOn_cons, List.length_append, hl0, hl1]
+    | error e =>
+      refine ⟨[], ?_, ?_⟩
+      · rw [World.exec_cons_error _ hm, List.append_nil]
+      · have hex : C04.executed w (m :: ms) = [] := by simp only [C04.executed, hm]
+        rw [hex]; rfl
 
 /-- `condense_log n` with an ordinary label keeps everything but the last `n` entries and appends
     one entry carrying the newest snapshot. -/
@@ -53,30 +304,67 @@ theorem condense_spec (L L' : Labware) (n : Nat) (label : Option String)
     (hl : label ≠ some "first" ∧ label ≠ some "last") (h : L.condenseLog n label = .ok L') :
     L'.hist = L.hist.take (L.hist.length - n) ++ [(label, ((L.hist.getLast?.getD (none, [])).2))]
     ∧ L'.vols = L.vols := by
-  sorry
+  unfold Labware.condenseLog at h
+  simp only [if_neg hl.1, if_neg hl.2] at h
+  cases h
+  exact ⟨rfl, rfl⟩
 
 /-! ### Direct calls and single worklist operations: one entry per call -/
 
 theorem add_one_entry (w w' : World) (l : Nat) (wells : Arr String) (vols : Arr Rat) (label : Option String)
     (comps : Option (List (Option Comp))) (h : w.step (.add l wells vols label comps) = (w', none)) :
     whist w' l = whist w l ++ [(label, wvols w' l)] ∧ ∀ l', l' ≠ l → whist w' l' = whist w l' := by
-  sorry
+  unfold World.step compile at h
+  simp only at h
+  cases hL : w.labs[l]? with
+  | none => rw [hL] at h; exact absurd h (exec_reject_not_ok _ _)
+  | some L =>
+    rw [hL] at h
+    simp only at h
+    rw [← List.append_nil (compileAdd L l wells vols label comps)] at h
+    exact one_entry w w' l label _ [] (compileAdd_oneLog _ _ _ _ _ _ _) (fun _ hm => by cases hm) h
 
 theorem remove_one_entry (w w' : World) (l : Nat) (wells : Arr String) (vols : Arr Rat) (label : Option String)
     (h : w.step (.remove l wells vols label) = (w', none)) :
     whist w' l = whist w l ++ [(label, wvols w' l)] ∧ ∀ l', l' ≠ l → whist w' l' = whist w l' := by
-  sorry
+  unfold World.step compile at h
+  simp only at h
+  cases hL : w.labs[l]? with
+  | none => rw [hL] at h; exact absurd h (exec_reject_not_ok _ _)
+  | some L =>
+    rw [hL] at h
+    simp only at h
+    rw [← List.append_nil (compileRemove L l wells vols label)] at h
+    exact one_entry w w' l label _ [] (compileRemove_oneLog _ _ _ _ _) (fun _ hm => by cases hm) h
 
 theorem aspirate_one_entry (w w' : World) (l : Nat) (wells : Arr String) (vols : Arr Rat) (label : Option String) (kw : KW)
     (h : w.step (.aspirate l wells vols label kw) = (w', none)) :
     whist w' l = whist w l ++ [(label, wvols w' l)] ∧ ∀ l', l' ≠ l → whist w' l' = whist w l' := by
-  sorry
+  unfold World.step compile at h
+  simp only at h
+  cases hL : w.labs[l]? with
+  | none => rw [hL] at h; exact absurd h (exec_reject_not_ok _ _)
+  | some L =>
+    rw [hL] at h
+    simp only at h
+    obtain ⟨A, Q, hAQ, hA, hQ⟩ := compileAspirate_shape w.cfg L l wells vols label kw
+    rw [hAQ] at h
+    exact one_entry w w' l label A Q hA hQ h
 
 theorem dispense_one_entry (w w' : World) (l : Nat) (wells : Arr String) (vols : Arr Rat) (label : Option String)
     (comps : Option (List (Option Comp))) (kw : KW)
     (h : w.step (.dispense l wells vols label comps kw) = (w', none)) :
     whist w' l = whist w l ++ [(label, wvols w' l)] ∧ ∀ l', l' ≠ l → whist w' l' = whist w l' := by
-  sorry
+  unfold World.step compile at h
+  simp only at h
+  cases hL : w.labs[l]? with
+  | none => rw [hL] at h; exact absurd h (exec_reject_not_ok _ _)
+  | some L =>
+    rw [hL] at h
+    simp only at h
+    obtain ⟨A, Q, hAQ, hA, hQ⟩ := compileDispense_shape w.cfg L l wells vols label comps kw false
+    rw [hAQ] at h
+    exact one_entry w w' l label A Q hA hQ h
 
 /-- Operations that only emit records leave every history untouched. -/
 theorem record_ops_no_entry (w w' : World) (op : Op) (e : Option Err)
@@ -84,7 +372,276 @@ theorem record_ops_no_entry (w w' : World) (op : Op) (e : Option Err)
            ∨ op = .commit ∨ (∃ i, op = .setDiti i) ∨ (∃ a, op = .aspirateWell a) ∨ (∃ a, op = .dispenseWell a)
            ∨ (∃ a, op = .reagentDistribution a))
     (h : w.step op = (w', e)) : ∀ l, whist w' l = whist w l := by
-  sorry
+  have hq : ∀ m ∈ compile w op, quiet m = true := by
+    have single : ∀ m0 : Micro, quiet m0 = true → ∀ m ∈ [m0], quiet m = true := by
+      intro m0 h0 m hm
+      simp only [List.mem_singleton] at hm
+      subst hm; exact h0
+    rcases hop with rfl | ⟨s, rfl⟩ | ⟨n, rfl⟩ | rfl | rfl | rfl | ⟨i, rfl⟩ | ⟨a, rfl⟩ | ⟨a, rfl⟩ | ⟨a, rfl⟩
+    · exact quiet_commentMicros _
+    · exact quiet_commentMicros _
+    · exact quiet_washMicros _ _
+    · show ∀ m ∈ (if w.cfg.ditiMode then [Micro.fail .invalidOp] else [.emit .decon]), quiet m = true
+      split <;> exact single _ rfl
+    · exact single _ rfl
+    · exact single _ rfl
+    · exact single _ rfl
+    · exact quiet_exceptMicros _ _ (fun f => single _ rfl)
+    · exact quiet_exceptMicros _ _ (fun f => single _ rfl)
+    · exact quiet_compileRD _ _
+  intro l
+  have := exec_quiet_labs w (compile w op) hq
+  unfold World.step at h
+  rw [h] at this
+  exact whist_of_labs this l
+
+/-! ### Helper lemmas (transfers) -/
+
+private theorem logsOn_eq_zero (l : Nat) (ms : List Micro) (h : ∀ m ∈ ms, ∀ x, m ≠ .log l x) :
+    logsOn l ms = 0 := by
+  unfold logsOn
+  rw [List.length_eq_zero_iff, List.filter_eq_nil_iff]
+  intro m hm
+  cases m with
+  | log l' x =>
+    simp only [decide_eq_true_eq]
+    intro e
+    subst e
+    exact h _ hm x rfl
+  | _ => simp
+
+private theorem logsOn_quiet (l : Nat) (Q : List Micro) (hQ : ∀ m ∈ Q, quiet m = true) :
+    logsOn l Q = 0 := by
+  apply logsOn_eq_zero
+  intro m hm x e
+  subst e
+  exact Bool.noConfusion (hQ _ hm)
+
+private theorem logsOn_oneLog (l l' : Nat) (label : Option String) (A : List Micro)
+    (hA : OneLog l' label A) (hnf : ∀ m ∈ A, isFail m = false) :
+    logsOn l A = if l' = l then 1 else 0 := by
+  rcases hA with rfl | ⟨steps, hs, rfl⟩
+  · exact Bool.noConfusion (hnf _ List.mem_cons_self)
+  · rw [logsOn_append, logsOn_eq_zero l steps (fun m hm x e => (stepOn_not_log (hs m hm)).1 l x e),
+      Nat.zero_add]
+    by_cases heq : l' = l <;> simp [logsOn, heq]
+
+private theorem noCondense_quiet (Q : List Micro) (hQ : ∀ m ∈ Q, quiet m = true) :
+    ∀ m ∈ Q, isCondense m = false := by
+  intro m hm
+  have := hQ m hm
+  cases m <;> first | rfl | cases this
+
+private theorem noCondense_oneLog (l : Nat) (label : Option String) (A : List Micro)
+    (hA : OneLog l label A) : ∀ m ∈ A, isCondense m = false := by
+  rcases hA with rfl | ⟨steps, hs, rfl⟩
+  · intro m hm; simp only [List.mem_singleton] at hm; subst hm; rfl
+  · intro m hm
+    rcases List.mem_append.1 hm with h | h
+    · exact (stepOn_not_log (hs m h)).2
+    · simp only [List.mem_singleton] at h; subst h; rfl
+
+private theorem block_noCondense (cfg : Cfg) (S : Labware) (src : Nat) (D : Labware) (dst : Nat)
+    (wash : WashArg) (kw : KW) (st : PlanStep) :
+    ∀ m ∈ transferBlock cfg S src D dst wash kw st, isCondense m = false := by
+  by_cases hst : ∃ s d v, st = .pair s d v
+  · obtain ⟨s, d, v, rfl⟩ := hst
+    obtain ⟨A, Q1, B, Q2, h, hA, hB, hQ1, hQ2⟩ :=
+      transferBlock_pair_shape cfg S src D dst wash kw s d v
+    rw [h]
+    intro m hm
+    simp only [List.mem_append] at hm
+    rcases hm with ((hm | hm) | hm) | hm
+    · exact noCondense_oneLog _ _ _ hA m hm
+    · exact noCondense_quiet _ hQ1 m hm
+    · exact noCondense_oneLog _ _ _ hB m hm
+    · exact noCondense_quiet _ hQ2 m hm
+  · exact noCondense_quiet _ (transferBlock_other_quiet cfg S src D dst wash kw st
+      (fun s d v h => hst ⟨s, d, v, h⟩))
+
+private theorem block_logs_pair (cfg : Cfg) (S : Labware) (src : Nat) (D : Labware) (dst : Nat)
+    (wash : WashArg) (kw : KW) (s d : String) (v : Rat) (l : Nat)
+    (hnf : ∀ m ∈ transferBlock cfg S src D dst wash kw (.pair s d v), isFail m = false) :
+    logsOn l (transferBlock cfg S src D dst wash kw (.pair s d v))
+      = (if src = l then 1 else 0) + (if dst = l then 1 else 0) := by
+  obtain ⟨A, Q1, B, Q2, h, hA, hB, hQ1, hQ2⟩ :=
+    transferBlock_pair_shape cfg S src D dst wash kw s d v
+  rw [h] at hnf ⊢
+  simp only [List.mem_append] at hnf
+  rw [logsOn_append, logsOn_append, logsOn_append, logsOn_quiet l Q1 hQ1, logsOn_quiet l Q2 hQ2,
+    logsOn_oneLog l src none A hA (fun m hm => hnf m (Or.inl (Or.inl (Or.inl hm)))),
+    logsOn_oneLog l dst none B hB (fun m hm => hnf m (Or.inl (Or.inr hm)))]
+  simp only [Nat.add_zero]
+
+private theorem countPairs_cons (st : PlanStep) (plan : List PlanStep) :
+    countPairs (st :: plan)
+      = (match st with | .pair _ _ _ => 1 | _ => 0) + countPairs plan := by
+  unfold countPairs
+  rw [List.filter_cons]
+  cases st <;> simp only [if_true, List.length_cons, Bool.false_eq_true, if_false] <;> omega
+
+private theorem plan_logs (cfg : Cfg) (S : Labware) (src : Nat) (D : Labware) (dst : Nat)
+    (wash : WashArg) (kw : KW) (plan : List PlanStep) (l : Nat)
+    (hnf : ∀ m ∈ plan.flatMap (transferBlock cfg S src D dst wash kw), isFail m = false) :
+    logsOn l (plan.flatMap (transferBlock cfg S src D dst wash kw))
+      = countPairs plan * ((if src = l then 1 else 0) + (if dst = l then 1 else 0)) := by
+  induction plan with
+  | nil => simp [logsOn, countPairs]
+  | cons st plan ih =>
+    rw [List.flatMap_cons] at hnf ⊢
+    have h1 : ∀ m ∈ transferBlock cfg S src D dst wash kw st, isFail m = false :=
+      fun m hm => hnf m (List.mem_append_left _ hm)
+    have h2 := ih (fun m hm => hnf m (List.mem_append_right _ hm))
+    rw [logsOn_append, h2, countPairs_cons, Nat.add_mul]
+    congr 1
+    cases st with
+    | pair s d v => rw [block_logs_pair cfg S src D dst wash kw s d v l h1]; simp only [Nat.one_mul]
+    | action =>
+      rw [logsOn_quiet l _ (transferBlock_other_quiet cfg S src D dst wash kw .action
+        (fun _ _ _ e => PlanStep.noConfusion e))]
+      simp only [Nat.zero_mul]
+    | brk =>
+      rw [logsOn_quiet l _ (transferBlock_other_quiet cfg S src D dst wash kw .brk
+        (fun _ _ _ e => PlanStep.noConfusion e))]
+      simp only [Nat.zero_mul]
+
+private theorem plan_noCondense (cfg : Cfg) (S : Labware) (src : Nat) (D : Labware) (dst : Nat)
+    (wash : WashArg) (kw : KW) (plan : List PlanStep) :
+    ∀ m ∈ plan.flatMap (transferBlock cfg S src D dst wash kw), isCondense m = false := by
+  intro m hm
+  obtain ⟨st, _, hm⟩ := List.mem_flatMap.1 hm
+  exact block_noCondense cfg S src D dst wash kw st m hm
+
+private theorem fresh_congr {w w' : World} {l : Nat} (h1 : whist w' l = whist w l)
+    (h2 : wvols w' l = wvols w l) (hf : Fresh w l) : Fresh w' l := by
+  unfold Fresh at hf ⊢
+  rw [h1, h2]; exact hf
+
+private theorem fresh_last {w : World} {l : Nat} (hf : Fresh w l) :
+    ((whist w l).getLast?.getD (none, [])).2 = wvols w l := by
+  unfold Fresh at hf
+  cases hg : (whist w l).getLast? with
+  | none => rw [hg] at hf; cases hf
+  | some e =>
+    rw [hg] at hf
+    simp only [Option.map_some, Option.some.injEq] at hf
+    simpa using hf
+
+private theorem condense_last (L L' : Labware) (n : Nat) (label : Option String)
+    (h : L.condenseLog n label = .ok L') :
+    L'.hist.getLast?.map (·.2) = some ((L.hist.getLast?.getD (none, [])).2) := by
+  unfold Labware.condenseLog at h
+  simp only at h
+  split at h
+  · cases h
+  · cases h
+    simp only [List.getLast?_concat, Option.map_some]
+
+private theorem micro_fresh (w w' : World) (m : Micro) (l : Nat) (b : Bool)
+    (h : w.micro m = .ok w') (hb : b = true → Fresh w l) (hc : cleanStep l b m = true) :
+    Fresh w' l := by
+  cases m with
+  | rm l0 i v =>
+    simp only [cleanStep] at hc
+    by_cases heq : l0 = l
+    · rw [if_pos heq] at hc; cases hc
+    · rw [if_neg heq] at hc
+      have := micro_rm w w' l0 i v l h
+      exact fresh_congr this.1 (this.2 heq) (hb hc)
+  | ad l0 i v c =>
+    simp only [cleanStep] at hc
+    by_cases heq : l0 = l
+    · rw [if_pos heq] at hc; cases hc
+    · rw [if_neg heq] at hc
+      have := micro_ad w w' l0 i v c l h
+      exact fresh_congr this.1 (this.2 heq) (hb hc)
+  | log l0 x =>
+    simp only [cleanStep] at hc
+    have := micro_hist_log w w' l l0 x h
+    by_cases heq : l0 = l
+    · rw [if_pos heq] at this
+      unfold Fresh
+      rw [this.1, this.2, List.getLast?_concat]
+      rfl
+    · rw [if_neg heq] at this hc
+      exact fresh_congr this.1 this.2 (hb hc)
+  | condense l0 n x =>
+    have hf : Fresh w l := hb hc
+    have := micro_condense w w' l0 n x l h
+    by_cases heq : l0 = l
+    · obtain ⟨L, L', hcl, hL, hL'⟩ := this.2.2 heq
+      unfold Fresh
+      rw [hL', this.1, condense_last L L' n x hcl, ← hL, fresh_last hf]
+    · exact fresh_congr (this.2.1 heq) this.1 hf
+  | loadComp l0 i =>
+    have hl := micro_quiet_labs w w' _ rfl h
+    exact fresh_congr (whist_of_labs hl l) (wvols_of_labs hl l) (hb hc)
+  | emit r =>
+    have hl := micro_quiet_labs w w' _ rfl h
+    exact fresh_congr (whist_of_labs hl l) (wvols_of_labs hl l) (hb hc)
+  | setDiti k =>
+    have hl := micro_quiet_labs w w' _ rfl h
+    exact fresh_congr (whist_of_labs hl l) (wvols_of_labs hl l) (hb hc)
+  | fail e =>
+    have hl := micro_quiet_labs w w' _ rfl h
+    exact fresh_congr (whist_of_labs hl l) (wvols_of_labs hl l) (hb hc)
+
+/-- If the static tracker says "clean" at the end, the newest entry is up to date at the end. -/
+private theorem exec_fresh (ms : List Micro) (w w' : World) (l : Nat) (b : Bool)
+    (h : w.exec ms = (w', none)) (hb : b = true → Fresh w l) (hc : clean l b ms = true) :
+    Fresh w' l := by
+  induction ms generalizing w b with
+  | nil =>
+    simp only [World.exec_nil, Prod.mk.injEq, and_true] at h
+    subst h
+    exact hb hc
+  | cons m ms ih =>
+    cases hm : w.micro m with
+    | ok w1 =>
+      rw [World.exec_cons_ok _ hm] at h
+      rw [clean_cons] at hc
+      exact ih w1 (cleanStep l b m) h (fun hc' => micro_fresh w w1 m l b hm hb hc') hc
+    | error e => rw [World.exec_cons_error _ hm] at h; cases h
+
+private theorem condense_world (w w' : World) (l n : Nat) (label : Option String)
+    (hl : label ≠ some "first" ∧ label ≠ some "last")
+    (h : w.micro (.condense l n label) = .ok w')
+    (base ext : List (Option String × List Rat)) (hh : whist w l = base ++ ext)
+    (hn : ext.length = n) (hf : Fresh w l) :
+    whist w' l = base ++ [(label, wvols w' l)] ∧ (∀ l', wvols w' l' = wvols w l')
+      ∧ (∀ l', l ≠ l' → whist w' l' = whist w l') := by
+  have hc := fun l' => micro_condense w w' l n label l' h
+  refine ⟨?_, fun l' => (hc l').1, fun l' hne => (hc l').2.1 hne⟩
+  obtain ⟨L, L', hcl, hL, hL'⟩ := (hc l).2.2 rfl
+  have hs := (condense_spec L L' n label hl hcl).1
+  have ht : List.take ((whist w l).length - n) (whist w l) = base := by
+    rw [hh, List.length_append, hn, Nat.add_sub_cancel]
+    exact List.take_left' rfl
+  rw [hL', hs, ← hL, (hc l).1, ht, fresh_last hf]
+
+private theorem lvhLabel_ne (label : Option String) (extra : Nat)
+    (hl : label ≠ some "first" ∧ label ≠ some "last") :
+    lvhLabel label extra ≠ some "first" ∧ lvhLabel label extra ≠ some "last" := by
+  have h5 : "first".length = 5 := by decide +kernel
+  have h4 : "last".length = 4 := by decide +kernel
+  have h10 : " LVH steps".length = 10 := by decide +kernel
+  have h11 : " LVH steps)".length = 11 := by decide +kernel
+  have hA : ∀ s : String, s ++ " LVH steps" ≠ "first" ∧ s ++ " LVH steps" ≠ "last" := by
+    intro s
+    constructor <;> intro e <;> have := congrArg String.length e <;>
+      rw [String.length_append] at this <;> omega
+  have hB : ∀ s : String, s ++ " LVH steps)" ≠ "first" ∧ s ++ " LVH steps)" ≠ "last" := by
+    intro s
+    constructor <;> intro e <;> have := congrArg String.length e <;>
+      rw [String.length_append] at this <;> omega
+  unfold lvhLabel
+  split
+  · exact hl
+  · split
+    · split
+      · exact ⟨fun e => (hA _).1 (Option.some.inj e), fun e => (hA _).2 (Option.some.inj e)⟩
+      · exact ⟨fun e => (hB _).1 (Option.some.inj e), fun e => (hB _).2 (Option.some.inj e)⟩
+    · exact ⟨fun e => (hA _).1 (Option.some.inj e), fun e => (hA _).2 (Option.some.inj e)⟩
 
 /-! ### Transfers: exactly one entry per participating labware -/
 
@@ -100,21 +657,306 @@ theorem transfer_entries (w w' : World) (src dst : Nat) (sw dw : Arr String) (vo
       ∧ whist w' dst = whist w dst ++ [(label', wvols w' dst)]
       ∧ (∀ l, l ≠ src → l ≠ dst → whist w' l = whist w l)
       ∧ (∃ extra : Nat, label' = lvhLabel label extra) := by
-  sorry
+  unfold World.step compile at h
+  simp only at h
+  cases hS : w.labs[src]? with
+  | none => rw [hS] at h; exact absurd h (exec_reject_not_ok _ _)
+  | some S =>
+    rw [hS] at h
+    simp only at h
+    cases hD : w.labs[dst]? with
+    | none => rw [hD] at h; exact absurd h (exec_reject_not_ok _ _)
+    | some D =>
+      rw [hD] at h
+      simp only at h
+      rcases compileTransfer_shape w.cfg S src sw D dst dw vols label wash pb kw with
+        ⟨e, he⟩ | ⟨plan, extra, hshape⟩
+      · rw [he] at h; exact absurd h (exec_fail_not_ok _ _ _)
+      · rw [hshape] at h
+        obtain ⟨mid, hmid, hcond⟩ := exec_append_ok h
+        have hl' := lvhLabel_ne label extra hl
+        suffices main : whist w' src = whist w src ++ [(lvhLabel label extra, wvols w' src)]
+            ∧ whist w' dst = whist w dst ++ [(lvhLabel label extra, wvols w' dst)]
+            ∧ (∀ l, l ≠ src → l ≠ dst → whist w' l = whist w l) from
+          ⟨_, main.1, main.2.1, main.2.2, extra, rfl⟩
+        generalize lvhLabel label extra = label' at hcond hl' ⊢
+        have hqc := quiet_commentMicros label
+        have hnf := exec_noFail hmid
+        have hnc : ∀ m ∈ commentMicros label
+            ++ plan.flatMap (transferBlock w.cfg S src D dst wash kw), isCondense m = false := by
+          intro m hm
+          rcases List.mem_append.1 hm with hm | hm
+          · exact noCondense_quiet _ hqc m hm
+          · exact plan_noCondense _ _ _ _ _ _ _ plan m hm
+        have hgrow : ∀ l, ∃ ext, whist mid l = whist w l ++ ext ∧ ext.length
+            = countPairs plan * ((if src = l then 1 else 0) + (if dst = l then 1 else 0)) := by
+          intro l
+          obtain ⟨ext, h1, h2⟩ := exec_hist_append w _ l hnc
+          rw [hmid] at h1
+          rw [C04.executed_all_of_ok w mid _ hmid, logsOn_append, logsOn_quiet l _ hqc, Nat.zero_add,
+            plan_logs w.cfg S src D dst wash kw plan l
+              (fun m hm => hnf m (List.mem_append_right _ hm))] at h2
+          exact ⟨ext, h1, h2⟩
+        have hclean : ∀ l, clean l true (commentMicros label
+            ++ plan.flatMap (transferBlock w.cfg S src D dst wash kw)) = true := fun l =>
+          clean_append_true l _ _ (clean_quiet l true _ hqc)
+            (clean_flatMap_true l _ plan (clean_transferBlock l w.cfg S src D dst wash kw))
+        have hFs : Fresh mid src := exec_fresh _ w mid src true hmid (fun _ => hfs) (hclean src)
+        have hFd : Fresh mid dst := exec_fresh _ w mid dst true hmid (fun _ => hfd) (hclean dst)
+        have hother : ∀ l, l ≠ src → l ≠ dst → whist mid l = whist w l := by
+          intro l h1 h2
+          obtain ⟨ext, he, hlen⟩ := hgrow l
+          rw [if_neg (fun e => h1 e.symm), if_neg (fun e => h2 e.symm)] at hlen
+          have : ext = [] := List.eq_nil_of_length_eq_zero (by omega)
+          rw [he, this, List.append_nil]
+        by_cases hsd : src = dst
+        · subst hsd
+          rw [if_pos rfl] at hcond
+          have hm := exec_singleton_ok hcond
+          obtain ⟨ext, hext, hlen⟩ := hgrow src
+          rw [if_pos rfl] at hlen
+          have hcw := condense_world mid w' src (2 * countPairs plan) label' hl' hm (whist w src) ext
+            hext (by omega) hFs
+          refine ⟨hcw.1, hcw.1, fun l h1 _ => ?_⟩
+          rw [hcw.2.2 l (fun e => h1 e.symm), hother l h1 h1]
+        · rw [if_neg hsd] at hcond
+          obtain ⟨w1, hc1, hc2⟩ := exec_append_ok
+            (a := [Micro.condense src (countPairs plan) label'])
+            (b := [Micro.condense dst (countPairs plan) label']) hcond
+          have hm1 := exec_singleton_ok hc1
+          have hm2 := exec_singleton_ok hc2
+          obtain ⟨ext1, hext1, hlen1⟩ := hgrow src
+          obtain ⟨ext2, hext2, hlen2⟩ := hgrow dst
+          rw [if_pos rfl, if_neg (fun e => hsd e.symm)] at hlen1
+          rw [if_pos rfl, if_neg hsd] at hlen2
+          have hcw1 := condense_world mid w1 src (countPairs plan) label' hl' hm1 (whist w src) ext1
+            hext1 (by omega) hFs
+          have hFd1 : Fresh w1 dst := fresh_congr (hcw1.2.2 dst hsd) (hcw1.2.1 dst) hFd
+          have hcw2 := condense_world w1 w' dst (countPairs plan) label' hl' hm2 (whist w dst) ext2
+            (by rw [hcw1.2.2 dst hsd]; exact hext2) (by omega) hFd1
+          refine ⟨?_, hcw2.1, fun l h1 h2 => ?_⟩
+          · rw [hcw2.2.2 src (fun e => hsd e.symm), hcw2.2.1 src]
+            exact hcw1.1
+          · rw [hcw2.2.2 l (fun e => h2 e.symm), hcw1.2.2 l (fun e => h1 e.symm), hother l h1 h2]
+
+/-! ### Helper lemmas (counting the pairs of a transfer plan) -/
+
+private theorem sum_map_add' {α : Type} (xs : List α) (a b : α → Nat) :
+    (xs.map fun x => a x + b x).sum = (xs.map a).sum + (xs.map b).sum := by
+  induction xs with
+  | nil => rfl
+  | cons x xs ih => simp only [List.map_cons, List.sum_cons, ih]; omega
+
+private theorem sum_range_lt (N k : Nat) :
+    ((List.range N).map fun p => if p < k then 1 else 0).sum = min N k := by
+  induction N with
+  | zero => simp
+  | succ N ih =>
+    rw [List.range_succ, List.map_append, List.sum_append, ih]
+    simp only [List.map_cons, List.map_nil, List.sum_cons, List.sum_nil]
+    split <;> omega
+
+private theorem sum_map_flatten {α : Type} (parts : List (List α)) (h : α → Nat) :
+    (parts.map fun g => (g.map h).sum).sum = (parts.flatten.map h).sum := by
+  induction parts with
+  | nil => rfl
+  | cons g parts ih =>
+    rw [List.map_cons, List.sum_cons, ih, List.flatten_cons, List.map_append, List.sum_append]
+
+private theorem countPairs_append (a b : List PlanStep) :
+    countPairs (a ++ b) = countPairs a + countPairs b := by
+  simp only [countPairs, List.filter_append, List.length_append]
+
+private theorem countPairs_flatMap {α : Type} (xs : List α) (h : α → List PlanStep) :
+    countPairs (xs.flatMap h) = (xs.map fun x => countPairs (h x)).sum := by
+  induction xs with
+  | nil => rfl
+  | cons x xs ih => rw [List.flatMap_cons, countPairs_append, ih, List.map_cons, List.sum_cons]
+
+private theorem countPairs_pairs (ps : List (String × String × Rat)) :
+    countPairs (ps.flatMap fun (s, d, v) => [PlanStep.pair s d v, PlanStep.action]) = ps.length := by
+  induction ps with
+  | nil => rfl
+  | cons x xs ih =>
+    obtain ⟨s, d, v⟩ := x
+    rw [List.flatMap_cons, countPairs_append, ih, List.length_cons]
+    simp only [countPairs, List.filter_cons, if_true, Bool.false_eq_true, if_false, List.filter_nil,
+      List.length_cons, List.length_nil]
+    omega
+
+private theorem countPairs_brk (c : Prop) [Decidable c] :
+    countPairs (if c then [PlanStep.brk] else []) = 0 := by
+  split <;> rfl
+
+private theorem countPairs_groupPlan (g : List Triple) (vls : List (List Rat)) :
+    countPairs (groupPlan g vls)
+      = ((List.range (maxLen vls)).map fun p => (roundPairs g vls p).length).sum := by
+  unfold groupPlan
+  simp only
+  rw [countPairs_append, countPairs_brk, Nat.add_zero, countPairs_flatMap]
+  congr 1
+  apply List.map_congr_left
+  intro p _
+  rw [countPairs_append, countPairs_brk, countPairs_pairs, Nat.add_zero]
+
+private theorem roundPairs_cons_length (F : Triple → List Rat) (t : Triple) (g : List Triple)
+    (p : Nat) (hpos : ∀ v ∈ F t, 0 < v) :
+    (roundPairs (t :: g) ((t :: g).map F) p).length
+      = (if p < (F t).length then 1 else 0) + (roundPairs g (g.map F) p).length := by
+  unfold roundPairs
+  rw [List.map_cons, List.zip_cons_cons, List.filterMap_cons]
+  simp only
+  cases hv : (F t)[p]? with
+  | none =>
+    have : ¬ p < (F t).length := by
+      rw [List.getElem?_eq_none_iff] at hv; omega
+    simp only [if_neg this, Nat.zero_add]
+  | some v =>
+    have hlt : p < (F t).length := (List.getElem?_eq_some_iff.1 hv).1
+    have hv0 : 0 < v := hpos v (List.mem_of_getElem? hv)
+    simp only [if_pos hv0, if_pos hlt, List.length_cons]
+    omega
+
+/-- Summing the rounds counts every (positive) step of every triple exactly once. -/
+private theorem rounds_sum (F : Triple → List Rat) (g : List Triple) (N : Nat)
+    (hN : ∀ t ∈ g, (F t).length ≤ N) (hpos : ∀ t ∈ g, ∀ v ∈ F t, 0 < v) :
+    ((List.range N).map fun p => (roundPairs g (g.map F) p).length).sum
+      = (g.map fun t => (F t).length).sum := by
+  induction g with
+  | nil =>
+    have : (fun p => (roundPairs [] (List.map F []) p).length) = fun _ => 0 := rfl
+    rw [this]
+    simp
+  | cons t g ih =>
+    have hfun : (fun p => (roundPairs (t :: g) ((t :: g).map F) p).length)
+        = fun p => (if p < (F t).length then 1 else 0) + (roundPairs g (g.map F) p).length :=
+      funext fun p => roundPairs_cons_length F t g p (hpos t List.mem_cons_self)
+    rw [hfun, sum_map_add', sum_range_lt,
+      ih (fun t' h' => hN t' (List.mem_cons_of_mem _ h'))
+        (fun t' h' => hpos t' (List.mem_cons_of_mem _ h')),
+      List.map_cons, List.sum_cons, Nat.min_eq_right (hN t List.mem_cons_self)]
+
+private theorem foldl_max_ge (ls : List (List Rat)) (a : Nat) :
+    a ≤ ls.foldl (fun m l => max m l.length) a
+    ∧ ∀ l ∈ ls, l.length ≤ ls.foldl (fun m l => max m l.length) a := by
+  induction ls generalizing a with
+  | nil => exact ⟨Nat.le_refl _, fun l h => by cases h⟩
+  | cons x xs ih =>
+    rw [List.foldl_cons]
+    have h1 := ih (max a x.length)
+    refine ⟨by omega, fun l hl => ?_⟩
+    rcases List.mem_cons.1 hl with rfl | hl
+    · omega
+    · exact h1.2 l hl
+
+private theorem length_le_maxLen (ls : List (List Rat)) : ∀ l ∈ ls, l.length ≤ maxLen ls :=
+  (foldl_max_ge ls 0).2
+
+private theorem countPairs_group (F : Triple → List Rat) (g : List Triple)
+    (hpos : ∀ t ∈ g, ∀ v ∈ F t, 0 < v) :
+    countPairs (groupPlan g (g.map F)) = (g.map fun t => (F t).length).sum := by
+  rw [countPairs_groupPlan]
+  apply rounds_sum F g _ _ hpos
+  intro t ht
+  exact length_le_maxLen _ _ (List.mem_map_of_mem ht)
+
+private def stepsOf (M : Rat) (t : Triple) : List Rat := partitionVolume t.vol M
+
+private theorem volLists_split (M : Rat) (g : List Triple) : volLists true M g = g.map (stepsOf M) := by
+  unfold volLists stepsOf
+  simp only [if_true]
+
+private theorem stepsOf_pos (M : Rat) (hM : 0 < M) (t : Triple) (ht : 0 ≤ t.vol) :
+    (∀ v ∈ stepsOf M t, 0 < v)
+    ∧ ((stepsOf M t).length - 1) + (if 0 < t.vol then 1 else 0) = (stepsOf M t).length := by
+  unfold stepsOf
+  rcases lt_or_eq_of_le ht with h | h
+  · have hs := C06.partition_spec t.vol M hM h
+    refine ⟨fun v hv => (hs.2.1 v hv).1, ?_⟩
+    rw [if_pos h]
+    have := hs.2.2
+    omega
+  · rw [← h, C06.partition_zero]
+    refine ⟨fun v hv => (by cases hv), ?_⟩
+    rw [if_neg (lt_irrefl _)]
+    rfl
+
+private theorem extra_plus_positive (M : Rat) (hM : 0 < M) (ts : List Triple)
+    (hnn : ∀ t ∈ ts, 0 ≤ t.vol) :
+    (ts.map fun t => (stepsOf M t).length - 1).sum + (ts.filter fun t => 0 < t.vol).length
+      = (ts.map fun t => (stepsOf M t).length).sum := by
+  induction ts with
+  | nil => rfl
+  | cons t ts ih =>
+    have ih' := ih (fun t' h' => hnn t' (List.mem_cons_of_mem _ h'))
+    have hp := (stepsOf_pos M hM t (hnn t List.mem_cons_self)).2
+    simp only [List.map_cons, List.sum_cons, List.filter_cons]
+    by_cases hv : 0 < t.vol
+    · rw [if_pos hv] at hp
+      simp only [hv, decide_true, if_true, List.length_cons]
+      omega
+    · rw [if_neg hv] at hp
+      simp only [hv, decide_false, Bool.false_eq_true, if_false]
+      omega
 
 /-- The reported number of large-volume steps is the number of extra pipetting pairs that
     splitting added: (number of pairs) − (number of requested volumes > 0), for `auto_split`. -/
 theorem lvh_count (M : Rat) (byDest : Bool) (ts : List Triple) (hM : 0 < M) (hnn : ∀ t ∈ ts, 0 ≤ t.vol) :
     lvhExtra true M byDest ts + (ts.filter fun t => 0 < t.vol).length = countPairs (transferPlan true M byDest ts) := by
-  sorry
+  have hperm := C18.perm ts byDest
+  have hmem : ∀ g ∈ partitionByColumn ts byDest, ∀ t ∈ g, t ∈ ts := fun g hg t ht =>
+    hperm.mem_iff.1 (List.mem_flatten.2 ⟨g, hg, ht⟩)
+  have hcount : countPairs (transferPlan true M byDest ts)
+      = (ts.map fun t => (stepsOf M t).length).sum := by
+    unfold transferPlan
+    rw [countPairs_flatMap]
+    have : ((partitionByColumn ts byDest).map fun g => countPairs (groupPlan g (volLists true M g)))
+        = (partitionByColumn ts byDest).map fun g => (g.map fun t => (stepsOf M t).length).sum := by
+      apply List.map_congr_left
+      intro g hg
+      rw [volLists_split, countPairs_group (stepsOf M) g
+        (fun t ht => (stepsOf_pos M hM t (hnn t (hmem g hg t ht))).1)]
+    rw [this, sum_map_flatten]
+    exact (hperm.map _).sum_nat
+  have hextra : lvhExtra true M byDest ts = (ts.map fun t => (stepsOf M t).length - 1).sum := by
+    unfold lvhExtra
+    have : ((partitionByColumn ts byDest).map fun g =>
+          ((volLists true M g).map fun vs => vs.length - 1).sum)
+        = (partitionByColumn ts byDest).map fun g =>
+          (g.map fun t => (stepsOf M t).length - 1).sum := by
+      apply List.map_congr_left
+      intro g _
+      rw [volLists_split, List.map_map]
+      rfl
+    rw [this, sum_map_flatten]
+    exact (hperm.map _).sum_nat
+  rw [hcount, hextra]
+  exact extra_plus_positive M hM ts hnn
 
 /-- Without splitting there are no extra steps. -/
 theorem lvh_zero_no_split (M : Rat) (byDest : Bool) (ts : List Triple) : lvhExtra false M byDest ts = 0 := by
-  sorry
+  have hz : ∀ (xs : List Nat), (∀ x ∈ xs, x = 0) → xs.sum = 0 := by
+    intro xs
+    induction xs with
+    | nil => intro _; rfl
+    | cons x xs ih =>
+      intro h
+      rw [List.sum_cons, h x List.mem_cons_self, ih (fun y hy => h y (List.mem_cons_of_mem _ hy))]
+  unfold lvhExtra
+  apply hz
+  intro x hx
+  obtain ⟨g, _, rfl⟩ := List.mem_map.1 hx
+  apply hz
+  intro y hy
+  obtain ⟨vs, hvs, rfl⟩ := List.mem_map.1 hy
+  unfold volLists at hvs
+  obtain ⟨t, _, rfl⟩ := List.mem_map.1 hvs
+  rfl
 
 /-- The large-volume note: the label is extended only when steps were added. -/
 theorem lvh_label (label : Option String) : lvhLabel label 0 = label := by
-  sorry
+  unfold lvhLabel
+  rw [if_pos rfl]
 
 /-- The printable report lists the name and then the same entries in the same order, for any
     formatter of a snapshot. -/
@@ -124,7 +966,7 @@ def report (fmt : List Rat → String) (L : Labware) : List String :=
 theorem report_order (fmt : List Rat → String) (L : Labware) :
     (report fmt L).head? = some L.name
     ∧ ((report fmt L).drop 1) = L.hist.flatMap fun e => (match e.1 with | some s => if s.isEmpty then [] else [s] | none => []) ++ [fmt e.2, ""] := by
-  sorry
+  exact ⟨rfl, rfl⟩
 
 example : lvhLabel (some "x") 2 = some "x (2 LVH steps)" := by decide +kernel
 
